@@ -405,7 +405,32 @@ func genC17(t *rapid.T, tier string) any {
 			break
 		}
 		lits := []*gen.Expr{gen.NumI(3), gen.Str("s"), gen.Asset("USD"), gen.PortionLit("1/2"), gen.Acct("a"), gen.Mon(gen.Asset("USD"), gen.NumI(1))}
-		switch gen.Uniform(t, "edit", 11) {
+		switch gen.Uniform(t, "edit", 13) {
+		case 11: // an origin refers to a variable declared later
+			if len(s.Vars) > 1 {
+				j := gen.Uniform(t, "early", len(s.Vars)-1)
+				l := j + 1 + gen.Uniform(t, "later", len(s.Vars)-j-1)
+				if s.Vars[l].Type == "account" {
+					delete(ec.Vars, s.Vars[j].Name)
+					s.Vars[j].Origin = &gen.Call{Fn: "meta", Args: []*gen.Expr{gen.Var(s.Vars[l].Name), gen.Str("k")}}
+					c.Edit += "origin-uses-later-declaration; "
+				}
+			}
+		case 12: // unbounded overdraft on an account *variable* directly under send-all
+			for _, st := range s.Stmts {
+				if st.Kind == gen.StSend && st.All {
+					s.Vars = append(s.Vars, gen.VarDecl{Type: "account", Name: "shapeacct"})
+					ec.Vars["shapeacct"] = "a"
+					inner := &gen.Src{Kind: gen.SOver, Addr: gen.Var("shapeacct")}
+					if gen.Chance(t, "wrapv", 50) {
+						st.Src = &gen.Src{Kind: gen.SInorder, Subs: []*gen.Src{st.Src, inner}}
+					} else {
+						st.Src = inner
+					}
+					c.Edit += "send-all-shape-variable; "
+					break
+				}
+			}
 		case 0, 1: // literal of another type
 			e := gen.Pick(t, "slot", slots)
 			*e = *gen.Pick(t, "lit", lits)
